@@ -107,6 +107,22 @@ P: dict[str, dict[str, str]] = {
         "c.py": "import b\nclass C:\n    def m(self) -> None: ...\n",
     },
 }
+# import options of a DEPENDENCY's own section (State.suppressed_deps_opts): a.py imports foo in five ways;
+# dm_* = foo is missing, dp_* = foo is present (and skipped: follow_imports skip <-> error)
+IMPORT_FORMS = {
+    "top": "import foo\n",
+    "func": "def f() -> None:\n    import foo\n",
+    "tc": "from typing import TYPE_CHECKING\nif TYPE_CHECKING:\n    import foo\n",
+    "anc": "import foo.bar\n",
+    "sub": "from foo import bar\n",
+}
+for _k, _src in IMPORT_FORMS.items():
+    P["dm_" + _k] = {"a.py": _src}
+    if _k in ("anc", "sub"):
+        P["dp_" + _k] = {"a.py": _src, "foo/__init__.py": 'x: int = ""\n' if _k == "anc" else "", "foo/bar.py": "y = 1\n" if _k == "anc" else 'y: int = ""\n'}
+    else:
+        P["dp_" + _k] = {"a.py": _src, "foo.py": 'x: int = ""\n'}
+
 # per-module interplay: module a carries the per-module option, b imports a and shows a's interface
 P["ip_implicit_optional"] = {"a.py": "def f(x: int = None) -> None: ...\n", "b.py": "from a import f\nreveal_type(f)\n"}
 P["ip_strict_optional"] = {"a.py": "x: int = None\n", "b.py": "import a\nreveal_type(a.x)\n"}
@@ -288,6 +304,21 @@ def build_table() -> None:
     E("disallow_untyped_defs", "ip_untyped_defs", F, T, target=["b.py"], only=["section", "inline"], tag="interplay", tier="thorough")
     E("ignore_errors", "ip_ignore_errors", F, T, target=["b.py"], only=["section", "inline"], tag="interplay", tier="thorough")
     E("strict_optional", "ip_strict_optional", T, F, target=["b.py"], only=["section", "inline"], tag="interplay", tier="thorough")
+    # ---- import options in the section of a dependency, by import form (priority): top-level import (PRI_MED),
+    #      inside a function (PRI_LOW), under TYPE_CHECKING (PRI_MYPY), ancestor of a dotted import, from-import of a
+    #      submodule.  Missing module: ignore_missing_imports; present module: follow_imports skip <-> error (the
+    #      dependency stays suppressed, only its recorded import options change).  One of each form in quick.
+    quick_dep = {("dm", "top"), ("dp", "func"), ("dm", "tc"), ("dm", "anc"), ("dp", "sub")}
+    for form in IMPORT_FORMS:
+        E("ignore_missing_imports", "dm_" + form, F, T, only=["section"], mod="foo", tag="dep-" + form + "-missing",
+          tier="quick" if ("dm", form) in quick_dep else "thorough")
+        if form == "anc":
+            continue
+        E("follow_imports", "dp_" + form, "skip", "error", only=["section"], mod="foo.bar" if form == "sub" else "foo",
+          tag="dep-" + form + "-present", tier="quick" if ("dp", form) in quick_dep else "thorough")
+    # known finding: a present package foo that is only the ANCESTOR of the followed module foo.bar is not in
+    # foo.bar's `suppressed` list, so foo.bar's cached "Ancestor package ignored" error ignores [mypy-foo] follow_imports
+    E("follow_imports", "dp_anc", "skip", "error", only=["section"], mod="foo", tag="dep-ancestor-present", tier="thorough")
     # ---- expected inert: toggled on the kitchen-sink program; cold outputs must be equal, warm must equal cold
     for attr, a, b in [
         ("skip_cache_mtime_checks", F, T), ("cache_fine_grained", F, T), ("debug_serialize", F, T),
@@ -803,6 +834,7 @@ def judge(ctx: vlib.Ctx, results: list[dict[str, Any]], classes: dict[str, Any])
 # toggles in a special context that are stale although the attribute itself is sound in the default context
 KNOWN_CONTEXT_FINDINGS = {
     "python_version@bazel": "in --bazel mode _cache_dir_prefix returns the current directory for every python version",
+    "follow_imports@dep-ancestor-present": "a skipped ANCESTOR package is not in the submodule's `suppressed` list: its import options are not part of the submodule's validity, the cached 'Ancestor package ignored' error is replayed",
 }
 
 
